@@ -402,10 +402,12 @@ def gen_hand_recipe(rng: random.Random, semiring: str) -> dict[str, Any]:
         inputs = []
         for v in range(nv):
             ms = _gen_pspec(rng, (K,), positive=False, dtype="real", learnable=g_learn, acts=["none"])
-            sd = _gen_pspec(rng, (K,), positive=True, dtype="real", learnable=g_learn,
-                            acts=["none", "softplus", "sigmoid", "exp"])
-            if sd["tp"]["init"]["type"] == "const":
-                sd["tp"]["init"] = {"type": "uniform", "a": 0.3, "b": 1.5}
+            # the standard deviation always goes through a positive activation, so that no
+            # update can make the layer invalid
+            sd = _gen_pspec(rng, (K,), positive=False, dtype="real", learnable=g_learn,
+                            acts=["softplus", "sigmoid", "exp"])
+            if sd["tp"]["init"]["type"] in ("const", "dirichlet"):
+                sd["tp"]["init"] = {"type": "uniform", "a": -1.0, "b": 1.0}
             ms["layer"] = "gaussian"
             ms["stddev"] = sd
             inputs.append(ms)
@@ -438,7 +440,7 @@ def gen_hand_recipe(rng: random.Random, semiring: str) -> dict[str, Any]:
         targets: list[dict[str, Any]] = []
         for ispec in inputs:
             if ispec.get("layer") == "gaussian":
-                targets.append(ispec["stddev"] if positive_ok else ispec)
+                targets.append(ispec["stddev"] if rng.random() < 0.7 else ispec)
             elif ispec.get("layer") == "embedding" and (positive_ok or not positive):
                 targets.append(ispec)
         for sspec in (sums or []):
